@@ -5,3 +5,4 @@ import JaxVerif.Properties.C18
 #print axioms JV.C18_tags
 #print axioms JV.C18_generated_good
 #print axioms JV.C18_execmodule_violates
+#print axioms JV.C18_nowrite_skip_violates
